@@ -211,6 +211,15 @@ func (s *Sim) installHooks() {
 		}
 	}
 	verifhook.OrderFn = s.order
+	verifhook.ResetLocks()
+	driver := verifhook.GoID()
+	verifhook.LockFn = func(site, key string, held int, gid uint64) {
+		// R8: a goroutine that holds no lock may be pre-empted before it takes
+		// one (not the driver itself, which calls into the gateway to start it)
+		if held == 0 && gid != driver && s.Cfg.P != nil && s.Cfg.P.Faults["lockyield"] {
+			s.park(site, key, 0)
+		}
+	}
 }
 
 func uninstallHooks() {
@@ -219,6 +228,7 @@ func uninstallHooks() {
 	verifhook.PointTFn = nil
 	verifhook.SeenFn = nil
 	verifhook.OrderFn = nil
+	verifhook.LockFn = nil
 }
 
 func (s *Sim) park(site, key string, tk uint64) {
